@@ -50,7 +50,7 @@ class State:
     """Immutable-by-convention: every update returns a new State (cheap shallow copies)."""
 
     __slots__ = ("env", "pc", "heap", "nalloc", "decisions", "touched", "lifted", "ghost", "entry_heap", "depth",
-                 "havoc_count", "frames")
+                 "havoc_count", "frames", "lens")
 
     def __init__(self) -> None:
         self.env: Dict[str, Any] = {}
@@ -65,6 +65,7 @@ class State:
         self.depth: int = 0
         self.havoc_count: int = 0
         self.frames: Tuple[Any, ...] = ()
+        self.lens: Dict[int, int] = {}   # list address term id -> statically known length (invalidated by mutation)
 
     def copy(self) -> "State":
         s = State.__new__(State)
@@ -80,6 +81,7 @@ class State:
         s.depth = self.depth
         s.havoc_count = self.havoc_count
         s.frames = self.frames
+        s.lens = self.lens
         return s
 
     def assume(self, *fs: Any) -> "State":
